@@ -32,7 +32,8 @@ class Prop:
             "None/True/False x below the target root with before in {None,True,False,0,1,-1,5,-5,each child} / below x / below z, kind=, data_id= "
             "(own, foreign), add(node) inside the source tree below every node (own branch, same parent: refused), copy_to of every node and of "
             "the tree x add_self x deep x before into the other and into the same tree, add(tree) x before x deep x 3 parents, into itself, "
-            "Tree.copy, Node.copy x add_self; (c) histories: source (exhaustive small, random 4-12 nodes with calc_data_id callbacks) + one "
+            "Tree.copy, Node.copy x add_self, the four shortcuts append_child/prepend_child/prepend_sibling/append_sibling with a NODE or a TREE "
+            "argument on every target node and inside the source tree (rendered for the model as the add_child call they stand for); (c) histories: source (exhaustive small, random 4-12 nodes with calc_data_id callbacks) + one "
             "copy operation + a metadata edit on a copied node and on a source node + a random mutation history of 4-25 operations on the "
             "source or on the copy (set_meta/clear_meta/update_meta, set_data, rename, sort, remove x keep_children x with_clones, "
             "remove_children, add, shortcuts, move, add(node), from_dict, filter, del); both sides are re-observed and re-checked after every step. "
@@ -107,7 +108,7 @@ class Prop:
             for alt in desc["alts"]:
                 yield dict(kind="hist", univ=desc["univ"], ops=desc["setup"] + [alt])
             return
-        for h in mut.shrink_candidates(dict(univ=desc["univ"], ops=desc["ops"])):
+        for h in M.shrink7(dict(univ=desc["univ"], ops=desc["ops"])):
             yield dict(kind="hist", univ=h["univ"], ops=h["ops"])
 
     def run(self, desc) -> Case:
